@@ -5,6 +5,7 @@ package main
 
 import (
 	"fmt"
+	"go/token"
 	"go/types"
 	"sort"
 	"strings"
@@ -70,6 +71,40 @@ func baseName(fn *ssa.Function) string {
 	return n
 }
 
+// pkgIterators: the functions of package indexing that hand out the (package, annotations) sequence - recognised
+// by their result type iter.Seq2[*types.Package, *annotations.PackageAnnotations], not by name.
+func (c *Ctx) pkgIterators() []string {
+	if c.pkgIters != nil {
+		return c.pkgIters
+	}
+	set := map[string]bool{}
+	for fn := range c.P.AllFuncs {
+		if fn.Parent() != nil || funcPkgPath(fn) != modulePath+"/src/indexing" || fn.Signature.Results().Len() != 1 {
+			continue
+		}
+		t := fn.Signature.Results().At(0).Type().String()
+		if strings.HasPrefix(t, "iter.Seq2[*go/types.Package,") && strings.Contains(t, "annotations.PackageAnnotations") {
+			set[baseName(fn)] = true
+		}
+	}
+	c.pkgIters = []string{}
+	for n := range set {
+		c.pkgIters = append(c.pkgIters, n)
+	}
+	sort.Strings(c.pkgIters)
+	return c.pkgIters
+}
+
+// fromPkgIter: descriptor d starts with pre + "iterelem<k>(call(<package iterator>[".
+func (c *Ctx) fromPkgIter(d, pre string, k int) bool {
+	for _, n := range c.pkgIterators() {
+		if strings.HasPrefix(d, fmt.Sprintf("%siterelem%d(call(%s[", pre, k, n)) {
+			return true
+		}
+	}
+	return false
+}
+
 // ruleIndexSrc checks every instantiation of the given builders (all when none given).
 func (c *Ctx) ruleIndexSrc(builders ...string) {
 	P := c.P
@@ -101,147 +136,154 @@ func (c *Ctx) ruleIndexSrc(builders ...string) {
 		}
 		seenBuilders[bn]++
 		name := FuncName(fn)
-		// all functions of the builder: itself + closures
-		fns := P.StaticClosure(fn)
-		found := map[string]bool{}
-		for _, f := range fns {
-			if baseName(f) != bn && !strings.HasPrefix(FuncName(f), bn) {
-				continue
-			}
-			allInstrs(f, func(b *ssa.BasicBlock, ins ssa.Instruction) {
-				call, ok := ins.(*ssa.Call)
-				if !ok {
-					return
+		// the builder is analysed in its own calling context: helpers it shares with other builders are pinned to
+		// the call made from here
+		pins, family := P.ContextPins(fn)
+		P.PinnedAll(pins, func() {
+			// all functions of the builder: itself + closures
+			fns := P.StaticClosure(fn)
+			found := map[string]bool{}
+			for _, f := range fns {
+				if !family[f] {
+					continue
 				}
-				callee := call.Call.StaticCallee()
-				if callee == nil {
-					return
-				}
-				cn := FuncName(callee)
-				for _, as := range spec.adds {
-					if cn != as.method {
-						continue
+				allInstrs(f, func(b *ssa.BasicBlock, ins ssa.Instruction) {
+					call, ok := ins.(*ssa.Call)
+					if !ok {
+						return
 					}
-					cons := name + "#" + strings.TrimPrefix(as.method, "(*util.AttachmentsMap).")
-					where := P.Pos(call.Pos())
-					found[as.method] = true
-					a := call.Call.Args
-					// receiver: the result object created in this builder
-					okRecv := P.RootsAll(a[0], func(r ssa.Value) bool {
-						switch x := r.(type) {
+					callee := call.Call.StaticCallee()
+					if callee == nil {
+						return
+					}
+					cn := FuncName(callee)
+					for _, as := range spec.adds {
+						if cn != as.method {
+							continue
+						}
+						cons := name + "#" + strings.TrimPrefix(as.method, "(*util.AttachmentsMap).")
+						where := P.Pos(call.Pos())
+						found[as.method] = true
+						a := call.Call.Args
+						// receiver: the result object created in this builder
+						okRecv := P.RootsAll(a[0], func(r ssa.Value) bool {
+							switch x := r.(type) {
+							case *ssa.Call:
+								n := P.calleeName(x.Common())
+								return n == "util.NewTypesMap" || n == "util.NewTypeAssociationRegistry"
+							case *ssa.Alloc:
+								return typeStr(deref(x.Type())) == "util.AttachmentsMap"
+							}
+							return false
+						})
+						if !okRecv {
+							c.fail("INDEX-SRC/RESULT", cons, where, "Add is applied to an object that is not the freshly created result of the builder: "+short(P.Desc(a[0])))
+							continue
+						}
+						// package key: Path() of the *yielding* package
+						okPkg := P.RootsAll(a[1], func(r ssa.Value) bool {
+							pc := P.CallTo(r, "(*go/types.Package).Path")
+							return pc != nil && c.fromPkgIter(P.Desc(pc.Call.Args[0]), "", 0)
+						})
+						if !okPkg {
+							c.fail("INDEX-SRC/PKG-KEY", cons, where, "entries are not stored under the path of the package that declared the annotation (pkg.Path() of the yielded package): "+short(P.Desc(a[1])))
+							continue
+						}
+						// other args: fields of elem(range ann.<list>)
+						okArgs := true
+						why := ""
+						if len(a)-2 != len(as.args) {
+							okArgs, why = false, "unexpected number of arguments"
+						}
+						for i := 0; okArgs && i < len(as.args); i++ {
+							d := P.Desc(a[i+2])
+							f := as.args[i]
+							annElem := "elem(field("
+							var wantSuffix string
+							if strings.HasPrefix(f, "[]") {
+								wantSuffix = ".annotations.PackageAnnotations." + spec.list + "))." + elemTypeOf(spec.list) + "." + f[2:] + "))"
+								if !(c.fromPkgIter(d, "elem(field("+annElem, 1) && strings.HasSuffix(d, wantSuffix)) {
+									okArgs, why = false, fmt.Sprintf("argument %d is not every element of annot.%s: %s", i+1, f[2:], short(d))
+								}
+							} else {
+								wantSuffix = ".annotations.PackageAnnotations." + spec.list + "))." + elemTypeOf(spec.list) + "." + f + ")"
+								if !(c.fromPkgIter(d, "field("+annElem, 1) && strings.HasSuffix(d, wantSuffix)) {
+									okArgs, why = false, fmt.Sprintf("argument %d is not annot.%s of an element of ann.%s: %s", i+1, f, spec.list, short(d))
+								}
+							}
+						}
+						if !okArgs {
+							c.fail("INDEX-SRC/ARGS", cons, where, why)
+							continue
+						}
+						// guards: loops + the Kind discriminant only (UNIFORM: local and imported annotations alike)
+						kindOK := as.kind < 0
+						var extra []string
+						for _, l := range P.GuardsWithin(call, fn) {
+							if l.Kind == "rangeloop" || l.Kind == "rangefunc" {
+								continue
+							}
+							if l.Kind == "eq" {
+								isKind := func(v ssa.Value) bool { return strings.HasSuffix(P.Desc(v), "."+elemTypeOf(spec.list)+".Kind)") }
+								constOf := func(v ssa.Value) string {
+									if rs := P.Resolve(v); len(rs) == 1 {
+										if cs, ok := rs[0].(*ssa.Const); ok && cs.Value != nil {
+											return cs.Value.ExactString()
+										}
+									}
+									return ""
+								}
+								var kv string
+								if isKind(l.X) {
+									kv = constOf(l.Y)
+								} else if isKind(l.Y) {
+									kv = constOf(l.X)
+								}
+								if kv != "" {
+									if l.Pos && kv == fmt.Sprint(as.kind) {
+										kindOK = true
+										continue
+									}
+									if !l.Pos && kv != fmt.Sprint(as.kind) {
+										continue // other switch cases excluded
+									}
+								}
+							}
+							extra = append(extra, short(l.String()))
+						}
+						if !kindOK {
+							c.fail("INDEX-SRC/KIND", cons, where, fmt.Sprintf("entries are not restricted to annot.Kind == %s", kindNames[max0(as.kind)]))
+							continue
+						}
+						if len(extra) > 0 {
+							c.fail("INDEX-SRC/UNIFORM", cons, where, "index entries depend on an extra condition (imported and local annotations must be processed by the same statements): "+strings.Join(extra, "; "))
+							continue
+						}
+						c.ok("INDEX-SRC", cons, where, fmt.Sprintf("stores %v of every element of ann.%s under the yielding package's path", as.args, spec.list))
+					}
+				})
+			}
+			for _, as := range spec.adds {
+				if !found[as.method] {
+					c.fail("INDEX-SRC", name+"#"+as.method, P.Pos(fn.Pos()), "builder never calls "+as.method)
+				}
+			}
+			// the builder returns the object it filled
+			allInstrs(fn, func(b *ssa.BasicBlock, ins ssa.Instruction) {
+				if r, ok := ins.(*ssa.Return); ok && len(r.Results) == 1 {
+					okRet := P.RootsAll(r.Results[0], func(x ssa.Value) bool {
+						switch y := x.(type) {
 						case *ssa.Call:
-							n := P.calleeName(x.Common())
+							n := P.calleeName(y.Common())
 							return n == "util.NewTypesMap" || n == "util.NewTypeAssociationRegistry"
 						case *ssa.Alloc:
-							return typeStr(deref(x.Type())) == "util.AttachmentsMap"
+							return typeStr(deref(y.Type())) == "util.AttachmentsMap"
 						}
 						return false
 					})
-					if !okRecv {
-						c.fail("INDEX-SRC/RESULT", cons, where, "Add is applied to an object that is not the freshly created result of the builder: "+short(P.Desc(a[0])))
-						continue
-					}
-					// package key: Path() of the *yielding* package
-					okPkg := P.RootsAll(a[1], func(r ssa.Value) bool {
-						pc := P.CallTo(r, "(*go/types.Package).Path")
-						return pc != nil && strings.HasPrefix(P.Desc(pc.Call.Args[0]), "iterelem0(call(indexing.iterOverPackages[")
-					})
-					if !okPkg {
-						c.fail("INDEX-SRC/PKG-KEY", cons, where, "entries are not stored under the path of the package that declared the annotation (pkg.Path() of the yielded package): "+short(P.Desc(a[1])))
-						continue
-					}
-					// other args: fields of elem(range ann.<list>)
-					okArgs := true
-					why := ""
-					if len(a)-2 != len(as.args) {
-						okArgs, why = false, "unexpected number of arguments"
-					}
-					for i := 0; okArgs && i < len(as.args); i++ {
-						d := P.Desc(a[i+2])
-						f := as.args[i]
-						annElem := "elem(field(iterelem1(call(indexing.iterOverPackages["
-						var wantSuffix string
-						if strings.HasPrefix(f, "[]") {
-							wantSuffix = ".annotations.PackageAnnotations." + spec.list + "))." + elemTypeOf(spec.list) + "." + f[2:] + "))"
-							if !(strings.HasPrefix(d, "elem(field("+annElem) && strings.HasSuffix(d, wantSuffix)) {
-								okArgs, why = false, fmt.Sprintf("argument %d is not every element of annot.%s: %s", i+1, f[2:], short(d))
-							}
-						} else {
-							wantSuffix = ".annotations.PackageAnnotations." + spec.list + "))." + elemTypeOf(spec.list) + "." + f + ")"
-							if !(strings.HasPrefix(d, "field("+annElem) && strings.HasSuffix(d, wantSuffix)) {
-								okArgs, why = false, fmt.Sprintf("argument %d is not annot.%s of an element of ann.%s: %s", i+1, f, spec.list, short(d))
-							}
-						}
-					}
-					if !okArgs {
-						c.fail("INDEX-SRC/ARGS", cons, where, why)
-						continue
-					}
-					// guards: loops + the Kind discriminant only (UNIFORM: local and imported annotations alike)
-					kindOK := as.kind < 0
-					var extra []string
-					for _, l := range P.GuardsWithin(call, fn) {
-						if l.Kind == "rangeloop" || l.Kind == "rangefunc" {
-							continue
-						}
-						if l.Kind == "eq" {
-							isKind := func(v ssa.Value) bool { return strings.HasSuffix(P.Desc(v), "."+elemTypeOf(spec.list)+".Kind)") }
-							constOf := func(v ssa.Value) string {
-								if cs, ok := v.(*ssa.Const); ok && cs.Value != nil {
-									return cs.Value.ExactString()
-								}
-								return ""
-							}
-							var kv string
-							if isKind(l.X) {
-								kv = constOf(l.Y)
-							} else if isKind(l.Y) {
-								kv = constOf(l.X)
-							}
-							if kv != "" {
-								if l.Pos && kv == fmt.Sprint(as.kind) {
-									kindOK = true
-									continue
-								}
-								if !l.Pos && kv != fmt.Sprint(as.kind) {
-									continue // other switch cases excluded
-								}
-							}
-						}
-						extra = append(extra, short(l.String()))
-					}
-					if !kindOK {
-						c.fail("INDEX-SRC/KIND", cons, where, fmt.Sprintf("entries are not restricted to annot.Kind == %s", kindNames[max0(as.kind)]))
-						continue
-					}
-					if len(extra) > 0 {
-						c.fail("INDEX-SRC/UNIFORM", cons, where, "index entries depend on an extra condition (imported and local annotations must be processed by the same statements): "+strings.Join(extra, "; "))
-						continue
-					}
-					c.ok("INDEX-SRC", cons, where, fmt.Sprintf("stores %v of every element of ann.%s under the yielding package's path", as.args, spec.list))
+					c.check(okRet, "INDEX-SRC/RETURN", name, P.Pos(r.Pos()), "returns the filled index", "builder does not return the index it filled: "+short(P.Desc(r.Results[0])))
 				}
 			})
-		}
-		for _, as := range spec.adds {
-			if !found[as.method] {
-				c.fail("INDEX-SRC", name+"#"+as.method, P.Pos(fn.Pos()), "builder never calls "+as.method)
-			}
-		}
-		// the builder returns the object it filled
-		allInstrs(fn, func(b *ssa.BasicBlock, ins ssa.Instruction) {
-			if r, ok := ins.(*ssa.Return); ok && len(r.Results) == 1 {
-				okRet := P.RootsAll(r.Results[0], func(x ssa.Value) bool {
-					switch y := x.(type) {
-					case *ssa.Call:
-						n := P.calleeName(y.Common())
-						return n == "util.NewTypesMap" || n == "util.NewTypeAssociationRegistry"
-					case *ssa.Alloc:
-						return typeStr(deref(y.Type())) == "util.AttachmentsMap"
-					}
-					return false
-				})
-				c.check(okRet, "INDEX-SRC/RETURN", name, P.Pos(r.Pos()), "returns the filled index", "builder does not return the index it filled: "+short(P.Desc(r.Results[0])))
-			}
 		})
 	}
 	var bl []string
@@ -287,7 +329,13 @@ func (c *Ctx) ruleIterPackages() {
 	P := c.P
 	n := 0
 	for fn := range P.AllFuncs {
-		if baseName(fn) != "indexing.iterOverPackages" || !strings.Contains(FuncName(fn), "[") || fn.Parent() != nil || len(fn.Blocks) == 0 || fn.Origin() == nil || hasTypeParamArg(fn) {
+		isIter := false
+		for _, n := range c.pkgIterators() {
+			if baseName(fn) == n {
+				isIter = true
+			}
+		}
+		if !isIter || !strings.Contains(FuncName(fn), "[") || fn.Parent() != nil || len(fn.Blocks) == 0 || fn.Origin() == nil || hasTypeParamArg(fn) {
 			continue
 		}
 		n++
@@ -378,6 +426,12 @@ func (c *Ctx) ruleIterPackages() {
 					if b.Comment == "rangeindex.loop" {
 						continue
 					}
+					// `for i := 0; i < len(imports); i++`: leaving from the controlling test is exhaustion as well
+					if ifi, isIf := lastInstr(b).(*ssa.If); isIf && b.Succs[1] == s {
+						if bo, isB := ifi.Cond.(*ssa.BinOp); isB && bo.Op == token.LSS && fullIndexLoopBound(bo.X) != nil {
+							continue
+						}
+					}
 					just := false
 					for _, l := range g.edgeLits[edge{b, s}] {
 						if call := litCall(l); call != nil && call.Call.Value == yield && !l.Pos {
@@ -393,7 +447,7 @@ func (c *Ctx) ruleIterPackages() {
 			c.check(okExit, "ITER-PACKAGES/ALL-IMPORTS", name, P.Pos(y2.Pos()), "every direct import is consulted; a missing fact skips only that import", why)
 		}
 	}
-	c.floor("instantiations of indexing.iterOverPackages", n, 1)
+	c.floor("instantiations of the package iterator (iter.Seq2[*types.Package, *PackageAnnotations])", n, 1)
 }
 
 func hasTypeParamArg(fn *ssa.Function) bool {
